@@ -384,6 +384,9 @@ fn path_spelling_one(dir: &std::path::Path, schema_text: &str, schema_ext: &str,
     let mk = |q: String| Job { schema_path: schema_path.clone(), query: QuerySrc::Path(q), opts: crate::world::options::Opts::default(), cwd: cwd.clone() };
     let h = History { calls: vec![mk(decoy_path), mk(real_path.clone())], threads: 1 };
     let verdict = match run_history_fresh(&h, std::time::Duration::from_secs(60)) {
+        // a pipe can be read once: a tree that opens the file a second time waits for a writer that
+        // never comes; that is a time-out of this harness's set-up, not evidence about the property
+        Err(_) if feeder.is_some() => None,
         Err(e) => Some(format!("the process died: {}", e)),
         Ok(outs) => match &outs[1] {
             Outcome::Ok(tokens) => match describe_tokens(tokens) {
